@@ -48,7 +48,39 @@ func AsCmp(c Cond) (Cmp, bool) {
 	if !c.True {
 		op = negOp(op)
 	}
+	// a constant operand is put on the right (`nil == x`, `0 >= n` read as `x == nil`, `n <= 0`)
+	if _, xk := b.X.(*ssa.Const); xk {
+		if _, yk := b.Y.(*ssa.Const); !yk {
+			return Cmp{mirrorOp(op), b.Y, b.X, c.If}, true
+		}
+	}
 	return Cmp{op, b.X, b.Y, c.If}, true
+}
+
+func mirrorOp(op token.Token) token.Token {
+	switch op {
+	case token.LSS:
+		return token.GTR
+	case token.GTR:
+		return token.LSS
+	case token.LEQ:
+		return token.GEQ
+	case token.GEQ:
+		return token.LEQ
+	}
+	return op
+}
+
+// withMirror adds, for a comparison of two non-constant operands, the same fact written the other way round
+// (`a < b` also as `b > a`), so that a rule finds it whichever way the source spells it.
+func withMirror(out []Cmp, m Cmp) []Cmp {
+	out = append(out, m)
+	_, xk := m.X.(*ssa.Const)
+	_, yk := m.Y.(*ssa.Const)
+	if !xk && !yk && m.Op != token.EQL && m.Op != token.NEQ {
+		out = append(out, Cmp{mirrorOp(m.Op), m.Y, m.X, m.If})
+	}
+	return out
 }
 
 // EdgeCmps returns the comparisons known to hold on entry to b.
@@ -56,7 +88,7 @@ func EdgeCmps(b *ssa.BasicBlock) []Cmp {
 	var out []Cmp
 	for _, c := range EdgeFacts(b) {
 		if m, ok := AsCmp(c); ok {
-			out = append(out, m)
+			out = withMirror(out, m)
 			out = append(out, deriveCmps(m, 0)...)
 		}
 	}
